@@ -13,7 +13,7 @@ Requests
 Event tokens (`Model/Unwind.lean : Ev`):
   `nf:N` newFrame · `ts:R:IP` tryStart · `te` tryEnd · `call:FB:A` call · `cn:FB` callNative ·
   `ret` · `ss` seqStart · `se` seqEnd · `rs` strStart · `re` strEnd · `ex:K` exportVal ·
-  `raise:0|1` · `nest:ARGS:A` nested · `ib:M` importBegin ·
+  `raise:0|1` · `osf:N` opSetupFail · `nest:ARGS:A` nested · `ib:M` importBegin ·
   `enter:PRE:ARGS:kA|n|f` · `eop:PRE:ARGS:kA|n|f` enterOp · `ed:PRE:0|1` enterDirect · `nr:0|1` nativeRet · `ie:0|1` importEnd
 
 State summary:
@@ -42,6 +42,7 @@ def parseEv (tok : String) : Option Ev :=
   | ["re"] => some .strEnd
   | ["ex", k] => k.toNat?.map Ev.exportVal
   | ["raise", c] => c.toNat?.map (fun n => Ev.raise (n != 0))
+  | ["osf", n] => n.toNat?.map Ev.opSetupFail
   | ["nest", a, b] => do pure (Ev.nested (← a.toNat?) (← b.toNat?))
   | ["ib", m] => m.toNat?.map Ev.importBegin
   | ["eop", pre, args, c] => do
